@@ -12,6 +12,7 @@ CONTRACTS = collections.OrderedDict()  # 'Class.method' or 'func' -> Contract
 PREDICATES = {}                        # name -> (params, ast expr)
 PROPERTY_FUNCS = collections.OrderedDict()   # property id -> [contract keys]
 ASSUMPTIONS = []
+BOUNDED = {}             # property id -> [(script, description)] bounded stand-ins (native, labelled bounded)
 GLOBAL_OBJECTS = {}      # global name -> (class, {field: python value}) : module-level constant objects
                        # free-text assumptions recorded by contract files
 
@@ -231,3 +232,12 @@ _builtin_exceptions()
 def global_object(name, cls, **fields):
     """A module-level constant object (e.g. slimta.smtp.reply.bad_sequence) referenced by name."""
     GLOBAL_OBJECTS[name] = (cls, fields)
+
+
+def bounded(props, script, what):
+    """Register a BOUNDED stand-in (a native enumeration run under /venv/bin/python): labelled bounded in the
+    evidence and never counted among the discharged obligations."""
+    for p in props:
+        BOUNDED.setdefault(p, [])
+        if (script, what) not in BOUNDED[p]:
+            BOUNDED[p].append((script, what))
